@@ -20,6 +20,7 @@ import (
 	"syscall"
 	"testing"
 	"testing/synctest"
+	"time"
 
 	"cell2verif/hx"
 
@@ -96,11 +97,16 @@ func (i *sdInv) InvokeUserMessage(m interface{}) {
 func (i *sdInv) EscalateFailure(reason interface{}, message interface{}) {}
 
 type sdOp struct {
-	kind string // post release
+	kind string // post release selfpost wait
 	mb   int
 	msg  int
 	gate bool
+	ms   int // wait: virtual milliseconds that pass (the handler at its gate keeps the loop goroutine that long)
 }
+
+// sdSettle: after a handler that took long the run service sleeps 1-2 ms before its next receive (analysisRunning)
+// and the mailbox's run() begins a 1 ms smooth pause; the step's observation is taken after that has passed.
+const sdSettle = 10 * time.Millisecond
 
 var sdCase int
 
@@ -178,11 +184,21 @@ func runSchedCase(h *hx.T, ops []sdOp) {
 				gateOpen = true
 			}
 			synctest.Wait()
+			time.Sleep(sdSettle)
+			synctest.Wait()
 			h.Emit("sd release", obs())
+		case "wait":
+			// time passes: a long handler (the gate is closed), posters parked inside Schedule, or an idle dispatcher
+			synctest.Wait()
+			time.Sleep(time.Duration(op.ms) * time.Millisecond)
+			synctest.Wait()
+			h.Emit(fmt.Sprintf("sd wait ms=%d", op.ms), obs())
 		}
 	}
 	if !gateOpen {
 		close(st.gate)
+		synctest.Wait()
+		time.Sleep(sdSettle)
 		synctest.Wait()
 		h.Emit("sd release", obs())
 	}
@@ -207,13 +223,22 @@ func genSched(h *hx.T) []sdOp {
 		sched := map[int]bool{gmb: true}
 		qlen := 0
 		selfRound := h.R.Intn(2) == 0
+		// half of the rounds: the gated handler is a LONG one — virtual time passes (1 ms .. 2 min) while runs are
+		// buffered and posters sit inside Schedule; nothing may change, nobody may give up
+		waitRound := h.R.Intn(2) == 0
+		waits := []int{1, 20, 500, 1000, 2999, 3000, 3001, 5000, 10000, 30001, 60000, 120000}
 		for i := 0; i < k; i++ {
 			mb := 3 + h.R.Intn(n)
 			if h.R.Intn(3) != 0 {
 				mb = 3 + i%n // distinct mailboxes fill the channel fastest
 			}
-			if h.R.Intn(15) == 0 {
-				mb = gmb // the busy mailbox itself: taken by the interrupted run
+			if !waitRound && h.R.Intn(15) == 0 {
+				mb = gmb // the busy mailbox itself: taken by the interrupted run (not after a long handler: run() would begin a smooth pause first)
+			}
+			if waitRound && h.R.Intn(4) == 0 {
+				w := waits[h.R.Intn(len(waits))]
+				ops = append(ops, sdOp{kind: "wait", ms: w})
+				h.Count(fmt.Sprintf("sched.wait-while-busy.q%d", qlen))
 			}
 			if selfRound && h.R.Intn(3) == 0 && (sched[mb] || qlen < 9) {
 				// the handler on the loop goroutine posts (free slot, or the target's run is scheduled already)
@@ -235,7 +260,16 @@ func genSched(h *hx.T) []sdOp {
 				}
 			}
 		}
+		if waitRound {
+			w := waits[h.R.Intn(len(waits))]
+			ops = append(ops, sdOp{kind: "wait", ms: w})
+			h.Count(fmt.Sprintf("sched.wait-before-release.%dms", w))
+		}
 		ops = append(ops, sdOp{kind: "release"})
+		if h.R.Intn(6) == 0 {
+			ops = append(ops, sdOp{kind: "wait", ms: waits[h.R.Intn(len(waits))]}) // idle dispatcher
+			h.Count("sched.wait-idle")
+		}
 		if h.R.Intn(6) == 0 {
 			mb := 3 + h.R.Intn(n)
 			ops = append(ops, sdOp{kind: "selfpost", mb: mb, msg: msg(mb)}) // no handler is executing: nothing is posted
@@ -283,6 +317,11 @@ func replaySdOps(h *hx.T, lines []string) {
 				cases = append(cases, nil)
 			}
 			cases[len(cases)-1] = append(cases[len(cases)-1], sdOp{kind: "release"})
+		case "wait":
+			if len(cases) == 0 {
+				cases = append(cases, nil)
+			}
+			cases[len(cases)-1] = append(cases[len(cases)-1], sdOp{kind: "wait", ms: hx.KVInt(ws, "ms")})
 		}
 	}
 	for _, c := range cases {
@@ -317,6 +356,19 @@ func TestSched(t *testing.T) {
 			ops = append(ops, sdOp{kind: "selfpost", mb: 3, msg: 302}, sdOp{kind: "selfpost", mb: 0, msg: 2}, sdOp{kind: "release"})
 			runSchedCase(h, ops)
 			h.Count("sched.systematic-selfpost")
+		}
+		// systematic: k distinct mailboxes posted while a LONG handler holds the loop goroutine (k below, at and beyond the
+		// 9 slots), time passes (short .. minutes), then the handler returns: everything must still arrive
+		for _, k := range []int{3, 9, 10, 12} {
+			for _, w := range []int{1000, 5000, 120000} {
+				ops := []sdOp{{kind: "post", mb: 0, msg: 1, gate: true}}
+				for i := 0; i < k; i++ {
+					ops = append(ops, sdOp{kind: "post", mb: 3 + i, msg: (3+i)*100 + 1})
+				}
+				ops = append(ops, sdOp{kind: "wait", ms: w}, sdOp{kind: "release"}, sdOp{kind: "post", mb: 3 + k - 1, msg: (3+k-1)*100 + 2})
+				runSchedCase(h, ops)
+				h.Count("sched.systematic-wait")
+			}
 		}
 		for i := 0; i < n; i++ {
 			runSchedCase(h, genSched(h))
